@@ -169,6 +169,7 @@ Section AllocInv.
   Variables L I : nat.
   Hypothesis HI : I = L / 2.
   Hypothesis HI3 : 3 <= I.
+  Variable MH : nat.                  (* ZIX_BTREE_MAX_HEIGHT *)
 
   Notation anode := (anode elt).
   Notation atree := (atree elt).
@@ -187,7 +188,7 @@ Section AllocInv.
   Definition astep (ts : atree * ast) (x : BTreeProofsHist.op elt) : atree * ast :=
     let '(t, s) := ts in
     match x with
-    | OInsert o e => let '(_, t', s', _) := ainsert_op rank dflt L I (with_oracle o s) t e in (t', s')
+    | OInsert o e => let '(_, t', s', _) := ainsert_op rank dflt L I MH (with_oracle o s) t e in (t', s')
     | ORemove e => let '(_, _, t', s', _) := aremove_op rank dflt L I s t e in (t', s')
     | OFind _ => (t, s)
     | OClear _ => aclear_op s t
@@ -574,10 +575,11 @@ Section AllocInv.
   (* ---------------------------------------------------------------- zix_btree_grow_up / zix_btree_insert *)
   Lemma agrow_up_frame : forall h s (r : anode) R,
     wfn L I h (erase r) -> owns s (pages r ++ R) ->
-    let '(st, r', s') := agrow_up dflt L I s r in
+    let '(st, r', s') := agrow_up dflt L I MH s r in
     owns s' (pages r' ++ R) /\ (st <> SUCCESS -> r' = r).
   Proof.
     intros h s r R W O. unfold agrow_up.
+    destruct (MH <=? aheight r); [split; [exact O|reflexivity]|].
     pose proof (owns_alloc _ _ O) as H1. destruct (AllocModel.alloc Aligned s) as [[nid|] s1].
     2:{ split; [exact (proj1 H1)|reflexivity]. }
     destruct H1 as (O1 & _ & _).
@@ -590,7 +592,7 @@ Section AllocInv.
   Qed.
 
   Lemma ainsert_owns : forall t s e, AInv t s ->
-    let '(st, t', s', lg) := ainsert_op rank dflt L I s t e in owns s' (a_self t' :: pages (a_root t')).
+    let '(st, t', s', lg) := ainsert_op rank dflt L I MH s t e in owns s' (a_self t' :: pages (a_root t')).
   Proof.
     intros t s e [HInv O]. destruct HInv as ([h Hr] & Ha & Hsz). cbn [erase_tree root] in *.
     pose proof Hr as (Hk & Hn & Hge).
@@ -613,10 +615,11 @@ Section AllocInv.
       assert (Hw : wfn L I h (erase (a_root t))).
       { apply (B7 wfn_iff). split; [assumption|]. pose proof (B7 min_max_vals (erase (a_root t))). lia. }
       pose proof (agrow_up_frame h s (a_root t) [a_self t] Hw O') as HG.
-      pose proof (E5 erase_grow_up s (a_root t)) as EG.
-      destruct (agrow_up dflt L I s (a_root t)) as [[st0 r0] s0]. destruct HG as [O0 Hsame].
-      destruct (B7 grow_up_spec h (oracle s) (erase (a_root t)) st0 (erase r0) (oracle s0) Hr Efull EG)
-        as (_ & _ & [[-> _]|(-> & Hk0 & Hn0 & Hl0 & _ & Hel0)]).
+      pose proof (E5 erase_grow_up MH s (a_root t)) as EG.
+      destruct (agrow_up dflt L I MH s (a_root t)) as [[st0 r0] s0]. destruct HG as [O0 Hsame].
+      destruct (B7 grow_up_spec MH h (oracle s) (erase (a_root t)) st0 (erase r0) (oracle s0) Hr Efull EG)
+        as (_ & _ & [[-> _]|[(-> & _)|(-> & _ & Hk0 & Hn0 & Hl0 & _ & Hel0)]]).
+      + rewrite (Hsame ltac:(discriminate)) in O0. eapply owns_perm; [exact O0|perm].
       + rewrite (Hsame ltac:(discriminate)) in O0. eapply owns_perm; [exact O0|perm].
       + apply (Fin (S h)); auto. rewrite Hn0. unfold max_vals. rewrite Hl0. lia.
     - apply (Fin h); auto.
@@ -624,12 +627,12 @@ Section AllocInv.
   Qed.
 
   Lemma ainsert_inv : forall t s e, AInv t s ->
-    let '(st, t', s', lg) := ainsert_op rank dflt L I s t e in AInv t' s'.
+    let '(st, t', s', lg) := ainsert_op rank dflt L I MH s t e in AInv t' s'.
   Proof.
     intros t s e H. pose proof (ainsert_owns t s e H) as HO.
-    pose proof (E5 erase_insert s t e) as HE.
-    pose proof (B7 insert_refines (oracle s) (erase_tree t) e (proj1 H)) as HR.
-    destruct (ainsert_op rank dflt L I s t e) as [[[st t'] s'] lg].
+    pose proof (E5 erase_insert MH s t e) as HE.
+    pose proof (B7 insert_refines MH (oracle s) (erase_tree t) e (proj1 H)) as HR.
+    destruct (ainsert_op rank dflt L I MH s t e) as [[[st t'] s'] lg].
     rewrite HE in HR. split; [exact (proj1 HR)|exact HO].
   Qed.
 
@@ -985,7 +988,7 @@ Section AllocInv.
     let '(st, out, t', s', lg) := aremove_op rank dflt L I s t e in owns s' (a_self t' :: pages (a_root t')).
   Proof.
     intros t s e [HInv O]. destruct HInv as ([h Hr] & Hasc & Hsz). cbn [erase_tree root] in *.
-    destruct (B7 pre_root_spec h (erase (a_root t)) Hr Hasc) as (h0 & Hk0 & Hmax0 & Hs0 & Eel0).
+    destruct (B7 pre_root_spec h (erase (a_root t)) Hr Hasc) as (h0 & Hk0 & Hmax0 & Hs0 & Eel0 & _).
     assert (O' : owns s (pages (a_root t) ++ [a_self t])) by (eapply owns_perm; [exact O|perm]).
     unfold aremove_op. cbv zeta.
     assert (Pre : exists n0 s0,
@@ -1041,7 +1044,7 @@ Section AllocInv.
     - assert (H' : AInv t (with_oracle o s)).
       { destruct H as [H1 H2]. split; [exact H1|]. apply owns_with_oracle. exact H2. }
       pose proof (ainsert_inv t (with_oracle o s) e H') as HI0.
-      destruct (ainsert_op rank dflt L I (with_oracle o s) t e) as [[[st t'] s'] lg]. exact HI0.
+      destruct (ainsert_op rank dflt L I MH (with_oracle o s) t e) as [[[st t'] s'] lg]. exact HI0.
     - pose proof (aremove_inv t s e H) as HR.
       destruct (aremove_op rank dflt L I s t e) as [[[[st out] t'] s'] lg]. exact HR.
     - exact H.
